@@ -242,9 +242,11 @@ def c19(tier, replay=None):
     base = dict(slots="Slots2", refs="Refs1", texts=["a"], keys=["k", "e1", "e2", "bad"], pnames=["_x", "_X", "bad"], kinds=["char", "list", "table", "unk"], maxlist=2, maxentries=2, maxdepth=2, maxhist=4)
     if tier == "quick":
         plans = [("lists-tables-d4", dict(base)),
+                 ("numbers-d4", dict(base, kinds=["char", "list"], keys=["k"], pnames=["_x"], numtexts=["1.5(2)", "-3e2"], maxhist=4)),
                  ("packets-d4", dict(base, kinds=["char", "list"], keys=["k"], pnames=["_x", "_X", "_y", "bad"], maxhist=4, refs="Refs1", slots="Slots2"))]
     else:
-        plans = [("lists-tables-d5", dict(base, maxhist=5, slots="Slots3", refs="Refs2", keys=["k", "K", "e1", "e2", "bad"], kinds=["char", "numb", "list", "table", "na", "unk"])),
+        plans = [("numbers-d5", dict(base, kinds=["char", "list", "table"], keys=["k"], pnames=["_x"], numtexts=["1.5(2)", "-3e2"], maxhist=5)),
+                 ("lists-tables-d5", dict(base, maxhist=5, slots="Slots3", refs="Refs2", keys=["k", "K", "e1", "e2", "bad"], kinds=["char", "numb", "list", "table", "na", "unk"])),
                  ("growth-d7", dict(base, kinds=["list", "char"], keys=["k"], pnames=["_x"], maxlist=5, maxhist=7, refs="Refs1", slots="Slots2")),
                  ("packets-d5", dict(base, kinds=["char", "list"], keys=["k"], pnames=["_x", "_X", "_y", "bad"], maxhist=5))]
     covs = []
